@@ -999,6 +999,38 @@ func bytePerIteration(p *Prog, pr *Prover, fn *ssa.Function, buf, off *ssa.Param
 			}
 		}
 	}
+	// tail form: one more byte is stored after the loop at the running offset, and offset+1 is returned
+	if ok && !afterLast {
+		if add, isAdd := rv.X.(*ssa.BinOp); isAdd && add.Op == token.ADD && add.X == ssa.Value(phi) {
+			if k, isC := constInt(add.Y); isC && k == 1 {
+				fromHeader := true
+				for _, e := range l.ExitEdges() {
+					if e.from != phi.Block() {
+						fromHeader = false
+					}
+				}
+				ntail := 0
+				for _, b := range fn.Blocks {
+					if l.Blocks[b] {
+						continue
+					}
+					for _, ins := range b.Instrs {
+						if st, isSt := ins.(*ssa.Store); isSt {
+							if ia, isIA := st.Addr.(*ssa.IndexAddr); isIA && ia.X == ssa.Value(buf) {
+								ntail++
+								if ia.Index != ssa.Value(phi) {
+									ntail += 100
+								}
+							}
+						}
+					}
+				}
+				if fromHeader && ntail == 1 {
+					return true, "one byte is stored at the running offset on every cycle and one more after the loop; the number of bytes stored is returned"
+				}
+			}
+		}
+	}
 	if !ok || rv.Op != token.SUB || rv.Y != ssa.Value(off) || !afterLast {
 		return false, "the primitive does not return (running offset after the last byte) - (entry offset): " + describeVal(ret.Results[0])
 	}
